@@ -78,8 +78,15 @@ package websockets
 //@ func (*Connection).Close props(C12,C07)
 //@   requires conn != nil && conn.clientMessages != nil
 //@   assigns nothing
+//@   ghost queued int = 0
+//@   ghost ended int = 0
 //@   send clientMessages
-//@     assert[C12:close-frame-queued-first] arg0 == conn.clientMessages && arg1 != nil && arg1.Type == 8
+//@     assert[C12:close-frame-queued-first] arg0 == conn.clientMessages && arg1 != nil && arg1.Type == 8 && queued == 0 && ended == 0
+//@     do queued = queued + 1
+//@   close clientMessages
+//@     assert[C12:client-queue-ended-after-the-close-frame] arg0 == conn.clientMessages && queued == 1 && ended == 0
+//@     do ended = ended + 1
+//@   ensures[C12:close-queues-the-close-frame-and-ends-the-writer] queued == 1 && ended == 1
 
 // ---- the shim endpoints (C12, C13, C09) ----
 // Table invariant (rely/guarantee): every value in the session table is a non-nil *Connection with all three of its
